@@ -149,6 +149,12 @@ theorem inv_stepR {s : St} (h : Inv s) : Inv (stepR s) := by
     have hn := h9 n hr
     have hrest : (if s.block = true then RPc.waiting else RPc.w1).rest = [] := by
       split <;> rfl
+    -- the new head: between the old one and the tail
+    have hH : s.H ≤ (if s.kt = true then s.T else s.H + min n (s.T - s.H)) ∧
+        (if s.kt = true then s.T else s.H + min n (s.T - s.H)) ≤ s.T := by
+      split <;> omega
+    dsimp only
+    generalize (if s.kt = true then s.T else s.H + min n (s.T - s.H)) = H' at hH ⊢
     refine ⟨h1, ?_, ?_, h4, h5, ?_, ?_, ?_, ?_, ?_, ?_, ?_⟩ <;> simp only [hrest]
     · omega
     · omega
@@ -366,7 +372,7 @@ two steps of `wake_blocked_futures` — whatever `n` is and whatever the kernel
 consumed (also nothing: ETIME / EINTR), and from there gives up only if it sees
 no free slot. -/
 theorem blocked_enter_always_wakes (s : St) (n : Nat) (hr : s.r = .enter n)
-    (hb : s.block = false) :
+    (hb : s.block = false) (hk : s.kt = false) :
     (stepR s).r = .w1 ∧
     (stepR s).H = s.H + min n (s.T - s.H) ∧
     (stepR (stepR s)).r = .w2 (s.H + min n (s.T - s.H)) ∧
@@ -374,12 +380,17 @@ theorem blocked_enter_always_wakes (s : St) (n : Nat) (hr : s.r = .enter n)
       (if s.len - (s.T - (s.H + min n (s.T - s.H))) = 0 then RPc.idle
        else .tryLock (s.len - (s.T - (s.H + min n (s.T - s.H))))) := by
   have e1 : stepR s = { s with H := s.H + min n (s.T - s.H), r := .w1 } := by
-    simp [stepR, hr, hb]
+    simp [stepR, hr, hb, hk]
   refine ⟨?_, ?_, ?_, ?_⟩
   · rw [e1]
   · rw [e1]
   · rw [e1]; simp [stepR]
   · rw [e1]; simp only [stepR]; split <;> simp_all
+
+/-- … with or without a kernel thread. -/
+theorem blocked_enter_r (s : St) (n : Nat) (hr : s.r = .enter n) (hb : s.block = false) :
+    (stepR s).r = .w1 := by
+  simp [stepR, hr, hb]
 
 /-- Moves of the other threads do not move the ring thread. -/
 theorem stepF_r (s : St) (i : Nat) : (stepF s i).r = s.r := by
@@ -461,7 +472,7 @@ theorem blocked_enter_always_wakes_interleaved (s : St) (n : Nat) (hr : s.r = .e
   have e0b : (runMv s a).block = false := by rw [runMv_others_block s a ha, hblk]
   have e1 : (runMv s (a ++ [.r])).r = .w1 := by
     rw [runMv_append]
-    exact (blocked_enter_always_wakes _ n e0 e0b).1
+    exact blocked_enter_r _ n e0 e0b
   have e2 : (runMv s (a ++ [.r] ++ b)).r = .w1 := by
     rw [runMv_append, runMv_others_r _ b hb (by simp [e1]) (by simp [e1]), e1]
   refine ⟨e2, (runMv s (a ++ [.r] ++ b)).H, ?_⟩
